@@ -346,6 +346,21 @@ def run(F, rep, tier):
                     excl = True
             if not excl:
                 probs.append("line %s returns the ordering of one component (%s) without excluding Equal: a tie on this component is not resolved by the following components" % (line, str(d)[:70]))
+        # antisymmetry: arms for mirrored patterns ((Some, None) / (None, Some)) return opposite orderings; otherwise compare(x, y) and compare(y, x)
+        # can both be Less, the order is not total, and slice::sort_by panics on longer inputs
+        lit = {}
+        for d, cond, line in inloop:
+            if d and d[0] in ("ctor", "def") and isinstance(d[1], str) and d[1].endswith(("Ordering::Less", "Ordering::Greater")):
+                for c in reversed(cond):
+                    pats = tuple(x.split("::")[-1] for x in c[1] if isinstance(x, str) and x.startswith("core::option::Option::"))
+                    if len(pats) == 2 and c[2] is True:
+                        lit[pats] = d[1].split("::")[-1]
+                        break
+        for pats, o in lit.items():
+            mir = (pats[1], pats[0])
+            if mir != pats and mir in lit and lit[mir] == o:
+                probs.append("the arms for %s and %s both return %s: the comparator is not antisymmetric (not a total order; sort_by may panic or give an arbitrary order)" % (pats, mir, o))
+                break
         if not any(d and d[0] in ("ctor", "def") and isinstance(d[1], str) and d[1].endswith("Ordering::Equal") for d, cond, line in tails):
             probs.append("the comparator does not end with Ordering::Equal after the component loop")
         if probs:
